@@ -320,6 +320,11 @@ def tasks(tier):
         out.append(Task("spline_plan/knots/%s" % order, c02_spline.h_spline_knots, dict(order=order), mods="numint"))
     out.append(Task("contribution_layout/2_vector_features", c02_spline.h_contrib_layout, {}, mods="numint"))
     out.append(Task("contribution_layout/vj+2_vector_features", c02_spline.h_contrib_layout, dict(ifeat_ids=(2, 7, 6), has_vj=True), mods="numint"))
+    for v, lv, rm, pk in [("j", "MGGA", "expnt", "spline"), ("j", "MGGA", "expnt", "gaussian"), ("i", "GGA", "expnt", "spline"), ("j", "GGA", "one", "spline")] + \
+            ([(v, lv, rm, pk) for v in ("j", "i", "ij") for lv in ("MGGA", "GGA") for rm in ("one", "expnt") for pk in ("spline", "gaussian")] if tier == "thorough" else []):
+        nm = "generator/theta/%s/%s/%s/%s" % (v, lv, rm, pk)
+        if not any(t.name == nm for t in out):
+            out.append(Task(nm, c02_spline.h_generator_theta, dict(version=v, level=lv, rho_mult=rm, plan_kind=pk), mods="numint", max_paths=64, timeout_ms=60000))
     out.append(Task("smooth_exponent", h_smooth, {}))
     out.append(Task("tables", h_tables, {}, mods="numint"))
     for nspin in (1, 2):
@@ -331,7 +336,7 @@ def tasks(tier):
 
 def prepare(tier):
     m = sym_mods()
-    m.settings, m.plans, m.numint
+    m.settings, m.plans, m.numint, m.lcao_nldf_generator
     from ..llsym import bridge
     bridge.install(common.ctx(), "libmcider", CC, ["cider_coefs_gto_gq", "cider_coefs_gto_qg", "cider_coefs_vk1_gq", "cider_coefs_vk1_qg"], hybrid=True, stats=STATS)
 
@@ -344,7 +349,7 @@ def extra_evidence(results):
 META = dict(
     explanation="formula layer only: clang IR of cider_coefs.c executed symbolically (through the real Python wrapper where one exists) and "
                 "compared by z3 with the documented kernels integrated by the Gaussian-moment lemma; plan contraction and exponent formulas by E1",
-    functions=['ciderpress/dft/lcao_convolutions.py: ConvolutionCollection.__init__, n0, n1, nbeta (contribution_layout/*)', 'ciderpress/dft/plans.py: NLDFSplinePlan._run_setup, NLDFGaussianPlan._run_setup, _construct_cubic_splines, get_interpolation_coefficients, get_transformed_interpolation_terms (spline_plan/knots/*; cider_coefs_gto_* by contract, Cholesky as exact solve)', "ciderpress/lib/mod_cider/cider_coefs.c (clang -O1 IR): cider_coefs_gto_gq/qg (4 feature ids), cider_coefs_vk1_gq/qg, cider_ind_etb, cider_ind_zexp, "
+    functions=['ciderpress/dft/lcao_nldf_generator.py: LCAONLDFGenerator.get_features + ciderpress/dft/plans.py: get_function_to_convolve / get_interpolation_arguments (generator/theta/*)', 'ciderpress/dft/lcao_convolutions.py: ConvolutionCollection.__init__, n0, n1, nbeta (contribution_layout/*)', 'ciderpress/dft/plans.py: NLDFSplinePlan._run_setup, NLDFGaussianPlan._run_setup, _construct_cubic_splines, get_interpolation_coefficients, get_transformed_interpolation_terms (spline_plan/knots/*; cider_coefs_gto_* by contract, Cholesky as exact solve)', "ciderpress/lib/mod_cider/cider_coefs.c (clang -O1 IR): cider_coefs_gto_gq/qg (4 feature ids), cider_coefs_vk1_gq/qg, cider_ind_etb, cider_ind_zexp, "
                "cider_ind_clip, cider_coefs_spline_gq/qg, smooth_cider_exponents, _expnt_sat_func, _expnt_sat_deriv",
                "ciderpress/dft/plans.py: _get_ovlp_fit_interpolation_coefficients, VJ_ID_MAP, VI_ID_MAP, get_ccl_settings, NLDFAuxiliaryPlan.eval_rho_full/eval_rho_vi_",
                "ciderpress/dft/settings.py: get_cider_exponent(_gga), ALLOWED_*_SPECS"],
